@@ -52,6 +52,9 @@ pub fn eval(ctx: &Ctx, c: &Case) {
 }
 
 pub fn replay(ctx: &Arc<Ctx>, v: &Value) {
+    if crate::cold::replay(ctx, v) {
+        return;
+    }
     let c: Case = serde_json::from_value(v.clone()).expect("C06 case");
     eval(ctx, &c);
 }
@@ -248,4 +251,5 @@ pub fn run(ctx: &Arc<Ctx>) {
     ctx.sample(serde_json::to_value(&cases[0]).unwrap());
     ctx.sample(serde_json::to_value(&cases[cases.len() - 1]).unwrap());
     run_cases(ctx, &cases, 16, eval);
+    crate::cold::check(ctx, "C06");
 }
